@@ -17,6 +17,7 @@ import (
 	"go/printer"
 	"go/token"
 	"os"
+	"os/exec"
 	"path/filepath"
 	"strconv"
 	"strings"
@@ -37,6 +38,17 @@ var rewrite = map[string]string{
 var defaultName = map[string]string{
 	"sync": "sync", "sync/atomic": "atomic", "os": "os", "time": "time",
 	"github.com/edsrzf/mmap-go": "mmap", "github.com/gofrs/flock": "flock",
+}
+
+// moduleDir asks the go command where a dependency of the repository lives ("" if unknown).
+func moduleDir(repo, mod string) string {
+	cmd := exec.Command("go", "list", "-m", "-f", "{{.Dir}}", mod)
+	cmd.Dir = repo
+	out, err := cmd.Output()
+	if err != nil {
+		return ""
+	}
+	return strings.TrimSpace(string(out))
 }
 
 func main() {
@@ -140,6 +152,46 @@ func main() {
 			}
 			w.Close()
 			replace[src] = dst
+		}
+	}
+	// third-party: the snowflake id generator (batch ids) reads the wall clock; its "time" import is
+	// rewritten to the harness-owned clock so that batch ids are a deterministic function of the execution.
+	if dir := moduleDir(*repo, "github.com/bwmarrin/snowflake"); dir != "" {
+		src := filepath.Join(dir, "snowflake.go")
+		if f, err := parser.ParseFile(fset, src, nil, parser.ParseComments); err == nil {
+			// time.Now() -> verifNow(), time.Since(x) -> verifNow().Sub(x); verifNow lives in a virtual file of
+			// the same package and defaults to time.Now (the harness points it at its own clock)
+			ast.Inspect(f, func(n ast.Node) bool {
+				call, ok := n.(*ast.CallExpr)
+				if !ok {
+					return true
+				}
+				sel, ok := call.Fun.(*ast.SelectorExpr)
+				if !ok {
+					return true
+				}
+				if id, ok := sel.X.(*ast.Ident); !ok || id.Name != "time" {
+					return true
+				}
+				switch sel.Sel.Name {
+				case "Now":
+					call.Fun = ast.NewIdent("verifNow")
+				case "Since":
+					arg := call.Args[0]
+					call.Fun = &ast.SelectorExpr{X: &ast.CallExpr{Fun: ast.NewIdent("verifNow")}, Sel: ast.NewIdent("Sub")}
+					call.Args = []ast.Expr{arg}
+				}
+				return true
+			})
+			dst := filepath.Join(*out, "src", "_snowflake", "snowflake.go")
+			os.MkdirAll(filepath.Dir(dst), 0o755)
+			if w, err := os.Create(dst); err == nil {
+				printer.Fprint(w, fset, f)
+				// (files cannot be ADDED to a module-cache package through the overlay, so the clock seam is appended)
+				fmt.Fprint(w, "\n// VerifNow is the clock of the id generator (appended by the verification overlay).\nvar VerifNow = time.Now\n\nfunc verifNow() time.Time { return VerifNow() }\n")
+				w.Close()
+				replace[src] = dst
+			}
 		}
 	}
 	// shims: <rt>/<pkg>/*.go -> <repo>/verifrt/<pkg>/*.go
